@@ -146,7 +146,9 @@ func c11AccessesByInstruction(r *vf.Run, workers int) {
 				kind = "rmw-abs-x"
 			case 4: // pushes and pulls (the stack is in work RAM's low mirror)
 				prog = []byte{0x48, 0xDA, 0x5A, 0x8B, 0x0B, 0x4B, 0x08, 0xF4, g.U8(), g.U8(), 0x28, 0xAB, 0x2B, 0x7A, 0xFA, 0x68}
-				prog = prog[:1+g.Intn(len(prog))]
+				if cut := 1 + g.Intn(len(prog)); cut < 8 || cut >= 10 { // (not inside the PEA)
+					prog = prog[:cut]
+				}
 				maxSteps = len(prog)
 				kind = "push-pull"
 			case 5: // indirect long through a direct-page pointer the program stores first
@@ -193,11 +195,15 @@ func c11AccessesByInstruction(r *vf.Run, workers int) {
 			mm := &mapperMem{h: h, served: served, codeLo: code, codeHi: code + uint32(len(prog)) - 1}
 			ms := st
 			steps := 0
-			for ; steps < maxSteps+4 && !mm.unmapped; steps++ {
-				if uint32(ms.K)<<16|uint32(ms.PC) == target {
-					break
+			if pan := vf.Try(func() {
+				for ; steps < maxSteps+4 && !mm.unmapped; steps++ {
+					if uint32(ms.K)<<16|uint32(ms.PC) == target {
+						break
+					}
+					ref.Step(&ms, mm)
 				}
-				ref.Step(&ms, mm)
+			}); pan != nil {
+				mm.unmapped = true // the model does not cover where this program went: nothing is claimed
 			}
 			reached := uint32(ms.K)<<16|uint32(ms.PC) == target
 			// the real machine
